@@ -3,6 +3,7 @@ package main
 import (
 	"errors"
 	"fmt"
+	goerrors "github.com/ajitpratap0/GoSQLX/pkg/errors"
 	"strings"
 
 	"github.com/ajitpratap0/GoSQLX/pkg/gosqlx"
@@ -191,6 +192,28 @@ func runC12(c *runCtx) {
 				bi++
 			}
 		}
+		// the byte-string entry point: each error is located on the line of its own statement (every statement of the
+		// script stands on a line of its own), inside that line
+		if gs, gerrs := gosqlx.ParseWithRecovery(script); len(gerrs) == nBad && len(gs) == len(wantDumps) {
+			lines := strings.Split(script, "\n")
+			bi := 0
+			for i, sg := range segs {
+				if sg.good {
+					continue
+				}
+				var se *goerrors.Error
+				if errors.As(gerrs[bi], &se) && (se.Location.Line != 0 || se.Location.Column != 0) {
+					if se.Location.Line != i+1 || se.Location.Column < 1 || se.Location.Column > len(lines[i])+1 {
+						res.fail("recovery-error-location-outside-statement", "a recovery error is located outside the text of its own statement", wit,
+							map[string]any{"segment": i, "line_of_statement": i + 1, "location": fmt.Sprintf("%d:%d", se.Location.Line, se.Location.Column), "line_length": len(lines[i])})
+					}
+				}
+				bi++
+			}
+		} else if len(gerrs) != nBad || len(gs) != len(wantDumps) {
+			res.fail("recovery-entry-points-differ", "gosqlx.ParseWithRecovery and Parser.ParseWithRecovery disagree on the number of trees or errors", wit,
+				map[string]any{"gosqlx": []int{len(gs), len(gerrs)}, "parser": []int{len(stmts), len(errs)}})
+		}
 		// iff clause against strict parsing
 		_, perr := parser.NewParser().Parse(conv)
 		if (perr != nil) != (len(errs) > 0) {
@@ -220,6 +243,27 @@ func runC12(c *runCtx) {
 					res.corrFail("loops:Recovery", "Lean recLoop prediction differs from Parser.ParseWithRecovery", map[string]any{"script": script, "model": m["rec"]}, strings.Join(idx, ","))
 				}
 			}
+		}
+	}
+	// long runs of malformed statements must not wear the parser out: what follows them is still parsed
+	for _, sc := range []struct {
+		name string
+		bad  string
+		k    int
+	}{
+		{"shallow-expression-errors", "SELECT a FROM t WHERE a = ", 130},
+		{"nested-paren-errors", "SELECT " + strings.Repeat("(", 40) + "1 + ", 4},
+		{"cte-errors", "WITH c AS (SELECT (1 + ", 60},
+		{"case-errors", "SELECT CASE WHEN a THEN ", 120},
+		{"function-errors", "SELECT f(g(h(1, ", 110},
+		{"subquery-errors", "SELECT a FROM t WHERE a IN (SELECT b FROM u WHERE ", 105},
+	} {
+		script := strings.Repeat(sc.bad+";\n", sc.k) + "SELECT x FROM y WHERE z = 1;\nSELECT (((((1)))));"
+		res.count("run|"+sc.name, true)
+		stmts, errs := gosqlx.ParseWithRecovery(script)
+		if len(stmts) != 2 || len(errs) != sc.k {
+			res.fail("recovery-after-many-errors:"+sc.name, "after a run of malformed statements the well-formed ones that follow are not returned (or the error count is off)",
+				map[string]any{"malformed": sc.bad, "repeated": sc.k, "then": "SELECT x FROM y WHERE z = 1; SELECT (((((1)))));"}, map[string]any{"trees": len(stmts), "errors": len(errs)})
 		}
 	}
 	// token soup: termination and the iff clause on arbitrary token sequences
